@@ -118,6 +118,7 @@ func runC08(c *Check) {
 			}
 		}
 		c.Report(okArg, P+".O1", "WIRING/outputs", D, pc.Pos(), "publish helper call", "the publish helper receives exactly the slice the chain returned")
+		c.Floor(P+".O1", "Publisher.Publish call in the publish helper", len(CallsTo(H, nPublish)), 1)
 		for i, pb := range CallsTo(H, nPublish) {
 			k := fmt.Sprintf("Publish#%d", i)
 			c.Report(AllOrigins(Receiver(pb), IsFieldLoad(r.HPub)), P+".O1", "WIRING/publisher", H, pb.Pos(), k, "outputs go to this handler's publisher")
@@ -166,6 +167,8 @@ func runC08(c *Check) {
 	c08Context(c, P, r)
 	// consumed messages get their context in the Router's subscriber decorator: it must hand every message over
 	c07Decorator(c, P+".S")
+	// "every message a handler returns is published": the dispatch function's ack/nack/publish discipline (decided as C02)
+	c02Core(c, P+".S", r.RouterRoles)
 	// O5: exactly this handler's middlewares wrap its function
 	c09All(c, P, r)
 	// O4
@@ -732,8 +735,23 @@ func c09All(c *Check, P string, r *RouterRoles2) {
 				c.Report(w.Dir == -1 && w.Full, P+".O2", "WRAP-DIRECTION/publisher-decorators", fn, w.Call.Pos(), "publisher decorator wrap", "publisher decorators are applied in a full descending loop: the first added is outermost and sees outgoing messages first")
 				c.Report(AllOrigins(w.Call.Common().Args[0], func(o ssa.Value) bool { return LoadedField(o) == r.HPub || o == CallValue(w.Call) || isExtractOf(o, w.Call) }), P+".O2", "WRAP-BASE/publisher", fn, w.Call.Pos(), "publisher decorator wrap", "the chain starts from the handler's own publisher")
 				c.Report(len(FieldStores(fn, r.HPub)) == 1, P+".O2", "WRAP-STORED/publisher", fn, w.Call.Pos(), "publisher decorator wrap", "the decorated publisher replaces the handler's publisher")
+				// whatever the handler's configuration: a successful return comes after the decoration
+				for _, st := range FieldStores(fn, r.HPub) {
+					for _, ret := range Returns(fn) {
+						if RetNil(ret, len(ret.Results)-1) {
+							c.Report(Dominates(fn, st, ret), P+".O2", "DECORATE-ALWAYS/publisher", fn, ret.Pos(), "return nil", "every handler's publisher goes through the publisher decorators (no configuration-dependent shortcut around the loop)")
+						}
+					}
+				}
 			case AllOrigins(w.Slice, IsFieldLoad(sdF)):
 				c.Report(w.Dir == +1 && w.Full, P+".O2", "WRAP-DIRECTION/subscriber-decorators", fn, w.Call.Pos(), "subscriber decorator wrap", "subscriber decorators are applied in a full ascending loop: the first added is innermost and sees incoming messages first")
+				for _, st := range FieldStores(fn, r.HSub) {
+					for _, ret := range Returns(fn) {
+						if RetNil(ret, len(ret.Results)-1) {
+							c.Report(Dominates(fn, st, ret), P+".O2", "DECORATE-ALWAYS/subscriber", fn, ret.Pos(), "return nil", "every handler's subscriber goes through the subscriber decorators")
+						}
+					}
+				}
 			}
 		}
 	}
@@ -785,6 +803,12 @@ func runC10(c *Check) {
 	if r == nil {
 		return
 	}
+	c10Lifecycle(c, P, r)
+}
+
+// c10Lifecycle holds the lifecycle obligations of C10; C06 (graceful Close:
+// "Run returns nil", "Close waits for the handlers") decides them too.
+func c10Lifecycle(c *Check, P string, r *RouterRoles2) {
 	Run, RH := r.Run, r.RunHandlers
 	// O1
 	rhCalls := Callers([]*ssa.Function{Run}, RH)
@@ -857,6 +881,30 @@ func runC10(c *Check) {
 				}
 			}
 			c.Report(ok && !re[next], P+".O1", "SUBSCRIBE-ERROR-RETURNED", RH, sub.Pos(), "Subscribe error edge", "a failing Subscribe makes RunHandlers return an error")
+		}
+		// RunHandlers fails only when starting a handler failed: its error wraps a decorator's or Subscribe's error
+		var setup []ssa.CallInstruction
+		for _, cl := range CallsIn(RH) {
+			if call, ok := cl.(*ssa.Call); ok {
+				if cal := CalleeFn(&call.Call); cal != nil && cal.Pkg == RH.Pkg && cal.Signature.Recv() != nil && len(FieldStores(cal, r.HPub))+len(FieldStores(cal, r.HSub)) > 0 {
+					setup = append(setup, cl)
+				}
+			}
+		}
+		isSetupErr := func(x ssa.Value) bool {
+			if ResultOfAny(setup, 0)(x) {
+				return true
+			}
+			e, ok := x.(*ssa.Extract)
+			return ok && e.Tuple == CallValue(sub) && e.Index == 1
+		}
+		for i, ret := range Returns(RH) {
+			if RetNil(ret, 0) || !ReachAfter(next, nil)[ret] {
+				continue
+			}
+			os := Origins(ret.Results[0])
+			okErr := len(os) > 0 && allOf(os, func(v ssa.Value) bool { return IsNilConst(v) || Wraps(v, isSetupErr) })
+			c.Report(okErr, P+".O1", "RUNHANDLERS-FAILS-ONLY-ON-START-FAILURE", RH, ret.Pos(), fmt.Sprintf("return#%d", i), "inside the handler loop RunHandlers returns an error only when decorating or subscribing a handler failed (not because the context is done or the router is closing: Run would then return an error instead of nil and the router would never close itself)")
 		}
 	}
 	// O2 start once
@@ -932,10 +980,41 @@ func runC10(c *Check) {
 		}
 		c.Report(okT, P+".O4", "STOP-TARGET", RH, st.Pos(), "stop function", "Stop() cancels exactly the context this handler subscribed with (it ends that handler only)")
 	}
+	// … and Handler.Stop calls the stop function of the handler this Handler value was created for (not of whichever
+	// handler is registered under that name now)
+	if H := c.P.Named("message", "Handler"); H != nil {
+		if stop := c.P.MethodOf(H, "Stop"); stop != nil {
+			n := 0
+			for _, cl := range CallsIn(stop) {
+				if cl.Common().IsInvoke() || CalleeFn(cl.Common()) != nil || LoadedField(firstOrigin(cl.Common().Value)) != r.HStopFn {
+					continue
+				}
+				n++
+				u, _ := firstOrigin(cl.Common().Value).(*ssa.UnOp)
+				okOwn := false
+				if u != nil {
+					if _, base := FieldOf(u.X); base != nil {
+						okOwn = AllOrigins(base, func(o ssa.Value) bool {
+							f := LoadedField(o)
+							return f != nil && NamedOf(f.Type()) == r.HandlerT && f.Pkg() == H.Obj().Pkg() && !f.Exported()
+						})
+					}
+				}
+				c.Report(okOwn, P+".O4", "STOP-OWN-HANDLER", stop, cl.Pos(), "stop function call", "Handler.Stop stops the handler it was handed out for (read from the Handler value itself, not looked up by name: the name may have been re-used by a newer handler)")
+			}
+			c.Floor(P+".O4", "call of the stop function in Handler.Stop", n, 1)
+		}
+	}
+	// only Close (through its wait helper) waits for the in-flight invocations of the whole router
+	for _, fn := range r.Funcs {
+		for _, w := range r.waitsOn(fn, r.WRun) {
+			c.Report(HomeFn(fn) == r.WaitFn || fn.Parent() == r.WaitFn || HomeFn(fn).Parent() == r.WaitFn, P+".O4", "WHO-WAITS-FOR-INVOCATIONS", fn, w.Pos(), "Wait on the in-flight wait group", "only Router.Close's wait helper waits for the router-wide in-flight invocations (a single handler's shutdown must not depend on other handlers' work)")
+		}
+	}
 	// Stopped() is closed when the run loop ended
 	okStopped := false
 	for _, cl := range BuiltinCalls(r.StartLit, "close") {
-		if AllOrigins(cl.Common().Args[0], func(o ssa.Value) bool { return LoadedField(o) == r.HStopped }) {
+		if AllOrigins(cl.Common().Args[0], r.isFieldOrItsValue(r.HStopped)) {
 			for _, lc := range Callers([]*ssa.Function{r.StartLit}, r.RunLoop) {
 				if Dominates(r.StartLit, lc, cl) {
 					okStopped = true
@@ -947,7 +1026,7 @@ func runC10(c *Check) {
 	{
 		var stops []ssa.Instruction
 		for _, cl := range BuiltinCalls(r.StartLit, "close") {
-			if AllOrigins(cl.Common().Args[0], func(o ssa.Value) bool { return LoadedField(o) == r.HStopped }) {
+			if AllOrigins(cl.Common().Args[0], r.isFieldOrItsValue(r.HStopped)) {
 				stops = append(stops, cl)
 			}
 		}
@@ -959,7 +1038,7 @@ func runC10(c *Check) {
 		}
 	}
 	for _, cl := range BuiltinCalls(r.StartLit, "close") {
-		if !AllOrigins(cl.Common().Args[0], func(o ssa.Value) bool { return LoadedField(o) == r.HStopped }) {
+		if !AllOrigins(cl.Common().Args[0], r.isFieldOrItsValue(r.HStopped)) {
 			continue
 		}
 		okLast := false
@@ -1112,6 +1191,13 @@ func runC10(c *Check) {
 		}
 	}
 	c.Floor(P+".O5", "handler-loop wait group Add in AddHandler", nAdd, 1)
+	for _, fn := range r.Funcs {
+		for _, d := range CallsTo(fn, nWGDone) {
+			if r.LA.LockID(Receiver(d)) == r.WLoop {
+				c.Report(HomeFn(fn) == r.StartLit, P+".O5", "WHO-RELEASES-HANDLER", fn, d.Pos(), "handlersWg.Done", "a handler is released from the handler-loop wait group only by its own goroutine, after its loop ended (a second release — e.g. on a failed Subscribe that is retried later — makes Close return early or the counter go negative)")
+			}
+		}
+	}
 	for _, d := range CallsTo(r.StartLit, nWGDone) {
 		if r.LA.LockID(Receiver(d)) != r.WLoop {
 			continue
@@ -1174,4 +1260,25 @@ func ownOrDecorated(v ssa.Value, f *types.Var) bool {
 		return true
 	}
 	return rec(v)
+}
+
+// isFieldOrItsValue: a load of handler field f, or the very value that is
+// stored into f (a local `ch := make(chan …); h.f = ch; … close(ch)`).
+func (r *RouterRoles2) isFieldOrItsValue(f *types.Var) func(ssa.Value) bool {
+	return func(o ssa.Value) bool {
+		if LoadedField(o) == f {
+			return true
+		}
+		if _, isMk := o.(*ssa.MakeChan); !isMk {
+			return false
+		}
+		for _, fn := range r.Funcs {
+			for _, st := range FieldStores(fn, f) {
+				if AllOrigins(st.Val, func(x ssa.Value) bool { return x == o }) {
+					return true
+				}
+			}
+		}
+		return false
+	}
 }
